@@ -146,6 +146,29 @@ def check_walkers(p, res, root, is_bytes=False):
         guarded(res, inp, 'WcMatch', lambda: WM.WcMatch(r, pp, pp, flags=wf).match())
 
 
+TILDE_PATS = ('~\x00', '~\x00/a', '~\xff', '~\xe9x', '~nosuchuser', '~/', '~', '~\n', '~a\x00b/*', '~*', '~[a]', 'a~', '~\\')
+
+
+def check_tilde(res, root, only=None):
+    """GLOBTILDE hands the text after `~` to the operating system's user lookup."""
+    T = G.GLOBTILDE | G.GLOBSTAR | G.EXTGLOB
+    for p in TILDE_PATS:
+        for isb in (False, True):
+            pp = enc(p, isb)
+            if only is not None and pp != only:
+                continue
+            res.n['evaluations'] += 1
+            res.n['distinct_nontrivial'] += 1
+            inp = {'mode': 'glob~', 'pattern': pp, 'flags': 'GET'}
+            guarded(res, inp, 'translate', lambda: G.translate(pp, flags=T))
+            guarded(res, inp, 'compile', lambda: G.compile(pp, flags=T))
+            guarded(res, inp, 'glob', lambda: G.glob(pp, flags=T, root_dir=enc(root, isb)))
+            guarded(res, dict(inp, name=enc('a', isb)), 'match', lambda: G.globmatch(enc('a', isb), pp, flags=T | G.REALPATH, root_dir=enc(root, isb)))
+            if not isb:
+                guarded(res, dict(inp, mode='Path.glob~'), 'Path.glob', lambda: list(WP.Path(root).glob(p, flags=T)), (ValueError,))
+    res.samples.append({'tilde': '~\x00'})
+
+
 def make_tree():
     root = tempfile.mkdtemp(prefix='vfc10_', dir=bind.scratch_base())
     for d in ('a', 'a/a', '!('):
@@ -321,6 +344,7 @@ def plan(tier, seed):
     for sh in range(16):
         chunks.append(('mutations', sh, 16))
     chunks.append(('regexy',))
+    chunks.append(('tilde',))
     for part in range(4):
         chunks.append(('rawesc', part, 4))
     chunks.append(('malformed',))
@@ -378,6 +402,8 @@ def run_chunk(chunk):
                     check_pattern(t % r, res, root, is_bytes=True, light=True)
                     check_walkers(t % r, res, root)
             res.samples.append({'pattern': '[(?#)]'})
+        elif kind == 'tilde':
+            check_tilde(res, root)
         elif kind == 'rawesc':
             k = 0
             for t in RAW_TEMPLATES:
@@ -433,7 +459,9 @@ def replay(v):
         p = inp['pattern']
         isb = isinstance(p, bytes)
         ps = p.decode('latin-1') if isb else p
-        if inp['mode'] in ('fn', 'glob'):
+        if inp['mode'].endswith('~'):
+            check_tilde(r, root, only=p)
+        elif inp['mode'] in ('fn', 'glob'):
             check_pattern(ps, r, root, modes=(inp['mode'],), is_bytes=isb)
         else:
             check_walkers(ps, r, root, is_bytes=isb)
